@@ -435,9 +435,7 @@ class ResizingOperator(Operator):
                 acts as a proper inverse, while in restriction axes, the
                 operation is not invertible.
                 """
-                return ResizingOperatorAdjoint(
-                    domain=self.range, range=self.domain, pad_mode=op.pad_mode
-                )
+                return op.inverse.adjoint
 
         return ResizingOperatorAdjoint(op.range, op.domain, linear=True)
 
